@@ -23,7 +23,7 @@ ANCHORS = ["decaylanguage.dec.dec:DecFileParser.print_decay_modes", "decaylangua
 WORKERS = {"quick": 4, "thorough": 16}
 REQUIRED = {"ascending": 50, "ascending+scale": 20, "descending+scale": 20, "normalize": 50, "ties": 30, "lines>=5": 50, "lines>=8": 20, "refused:normalize+scale": 10,
             "refused:scale-out-of-range": 20, "pdg-name-mother": 10, "print_model=False": 50, "photos-keyword-hidden": 30, "photos-keyword-shown": 30,
-            "option-combinations-all": 1, "span>=1e6": 20, "stored-values-unchanged": 200}
+            "option-combinations-all": 1, "conjugated-table-printed": 20, "defined-parameter-in-row": 20, "same-table-other-define-value": 10, "span>=1e6": 20, "stored-values-unchanged": 200}
 EXHAUSTIVE_NOTE = "all 2x2x2x(normalize|8 scales) option combinations are used on every 8th table (quick) / every table (thorough)"
 ASSUMPTIONS = ["values are positive (1e-12..1); 7-significant-digit rounding allows a relative error of 6e-7 per value",
                "names contain no white space, so rows can be read back by splitting"]
@@ -48,6 +48,15 @@ def gen_table(ctx):
         mod = r.choice([("PHSP", []), ("VSS", []), ("HELAMP", ["1.0", "0.5", "x"]), ("SVS", []), ("VSS_BMIX", ["0.507e12"]), ("BTOXSGAMMA", ["2"])])
         lines.append({"bf": lit, "fs": fs, "photos": r.random() < 0.35, "model": mod[0], "params": list(mod[1])})
     pdg = None
+    extra = {}
+    if r.random() < 0.4:
+        # a Define'd parameter in some lines, and the table printed again for the conjugate mother created by CDecay
+        pairs = [(a, b) for a, b in names.antiparticle_pairs() if a in g.real and b in g.real]
+        mother, cm = r.choice(pairs)
+        for ln in lines:
+            if r.random() < 0.5:
+                ln["params"] = [*ln["params"], "dm"]
+        return {"mother": mother, "pdg_name": None, "lines": lines, "define": r.choice(["0.507e12", "0.25", "-1.5", "3"]), "cdecay": cm}
     if r.random() < 0.25:
         t = names.tables()
         cands = [(pn, en) for pn, en in t["pdg2evt"].items() if en in g.real and pn != en]
@@ -68,13 +77,30 @@ def option_sets(full):
 ALL_OPTS = option_sets(True)
 
 
-def check(ctx, tab, opts, p=None, workload="gen"):
+def statements(tab):
+    st = []
+    if tab.get("define"):
+        st.append({"k": "Define", "name": "dm", "value": tab["define"]})
+    st.append({"k": "Decay", "m": tab["mother"], "lines": tab["lines"]})
+    if tab.get("cdecay"):
+        st.append({"k": "CDecay", "name": tab["cdecay"]})
+    return st
+
+
+def check(ctx, tab, opts, p=None, workload="gen", which=None):
     from decaylanguage import DecFileParser  # noqa: PLC0415
 
-    lines = tab["lines"]
-    text = L.render([{"k": "Decay", "m": tab["mother"], "lines": lines}])
-    wit = {"kind": "print", "table": tab, "options": opts}
-    bfs = [L.num(ln["bf"]) for ln in lines]
+    stmts = statements(tab)
+    exp = L.expected(stmts)
+    which = which or tab["mother"]
+    lines = (exp["tables"].get(which) or exp["derived"].get(which))
+    text = L.render(stmts)
+    wit = {"kind": "print", "table": tab, "options": opts, "printed_mother": which}
+    bfs = [ln["bf"] for ln in lines]
+    if which != tab["mother"]:
+        ctx.hit("conjugated-table-printed")
+    if tab.get("define") and any("dm" in x["params"] for x in tab["lines"]):
+        ctx.hit("defined-parameter-in-row")
     ctx.case({"text": text, "opts": opts, "pdg": tab["pdg_name"]}, len(set(bfs)) >= 2, workload)
     _combos.add(repr(sorted(opts.items())))
     if p is None:
@@ -83,7 +109,7 @@ def check(ctx, tab, opts, p=None, workload="gen"):
             return None
         p = res[0]
     kw = dict(opts)
-    mother = tab["mother"]
+    mother = which
     if tab["pdg_name"]:
         kw["pdg_name"] = True
         mother = tab["pdg_name"]
@@ -112,7 +138,7 @@ def check(ctx, tab, opts, p=None, workload="gen"):
     elif raised is not None:
         ctx.violate("print:valid-options-refused", f"options {opts} refused: {raised}", wit)
     else:
-        judge(ctx, tab, opts, out, bfs, wit)
+        judge(ctx, {**tab, "mother": which, "lines": lines}, opts, out, bfs, wit)
     after = snapshot.tables(p)
     ctx.hit("stored-values-unchanged")
     if L.typed(before) != L.typed(after):
@@ -167,12 +193,12 @@ def judge(ctx, tab, opts, out, bfs, wit):
         exp_val = bfs[i] * k
         expect = list(ln["fs"])
         if opts["print_model"]:
-            expect += (["PHOTOS"] if (ln["photos"] and opts["display_photos_keyword"]) else []) + [ln["model"]] + [str(L.num(x)) if L.isnum(x) else x for x in ln["params"]]
+            expect += (["PHOTOS"] if (ln["photos"] and opts["display_photos_keyword"]) else []) + [ln["model"]] + [str(x) for x in ln["params"]]
         if toks[1:] != expect:
             # a wrong row order shows up here first when the rows differ in content
             same_multiset = sorted(tuple(r.rstrip()[:-1].split()[1:]) for r in rows) == sorted(
                 tuple(list(x["fs"]) + ((["PHOTOS"] if (x["photos"] and opts["display_photos_keyword"]) else []) + [x["model"]]
-                      + [str(L.num(y)) if L.isnum(y) else y for y in x["params"]] if opts["print_model"] else [])) for x in lines)
+                      + [str(y) for y in x["params"]] if opts["print_model"] else [])) for x in lines)
             ctx.violate("print:row-order" if same_multiset else "print:row-content", f"row {row!r}: expected columns {expect!r} (value {exp_val:.7g})", wit)
             return
         if not math.isclose(val, exp_val, rel_tol=6e-7, abs_tol=0.0):
@@ -191,7 +217,7 @@ def judge(ctx, tab, opts, out, bfs, wit):
     if opts.get("scale") is not None and not math.isclose(max(shown), opts["scale"], rel_tol=6e-7):
         ctx.violate("print:value:scale-largest", f"largest shown value {max(shown)!r} != scale {opts['scale']!r}", wit)
     if len(ctx.samples) < 3 and n >= 3:
-        ctx.sample({"options": opts, "table": L.render([{"k": "Decay", "m": tab["mother"], "lines": lines}]), "printed": out})
+        ctx.sample({"options": opts, "mother": tab["mother"], "lines": [[ln["bf"], ln["fs"], ln["model"], [str(x) for x in ln["params"]]] for ln in lines], "printed": out})
 
 
 def run(ctx):
@@ -201,10 +227,20 @@ def run(ctx):
         full = (not ctx.quick) or i % 8 == 0
         opts_list = ALL_OPTS if full else r.sample(ALL_OPTS, 6)
         p = None
-        for o in opts_list:
+        for j, o in enumerate(opts_list):
             p = check(ctx, tab, o, p)
             if p is None:
                 break
+            if tab.get("cdecay") and j % 2 == 0:
+                check(ctx, tab, o, p, which=tab["cdecay"])      # the conjugate mother's table, same instance, right after
+        if tab.get("define"):
+            # the same text with another value of the Define'd name, in a new instance of the same interpreter
+            tab2 = {**tab, "define": "7.5"}
+            ctx.hit("same-table-other-define-value")
+            for o in opts_list[:2]:
+                q = check(ctx, tab2, o, None)
+                if q is not None and tab2.get("cdecay"):
+                    check(ctx, tab2, o, q, which=tab2["cdecay"])
         if len(ctx.violations) >= ctx.max_violations:
             return
     ctx.note("option_combinations_seen", sorted(_combos))
